@@ -162,13 +162,19 @@ def store_bed(bed, args, genedb_mtime=None):
     logger.debug('New BED saved to {}'.format(bed))
 
 
+def alignment_options_suffix(args):
+    # options that change the alignments: an alignment made with other options is not this run's alignment
+    stranded = getattr(args, "stranded", None)
+    return "_stranded_" + stranded if stranded == "forward" else ""
+
+
 def find_stored_alignment(fastq_file, annotation, args):
     fastq = os.path.abspath(fastq_file)
     index = os.path.abspath(args.index)
     ann_path = os.path.abspath(annotation) if annotation else ""
     ann_str = "_" + ann_path if ann_path else ""
 
-    key = "%s_aligned_to_%s%s" % (fastq, index, ann_str)
+    key = "%s_aligned_to_%s%s%s" % (fastq, index, ann_str, alignment_options_suffix(args))
     with open(args.alignment_config_path, 'r') as f_in:
         aligned_fastq_files = json.load(f_in)
 
@@ -205,7 +211,7 @@ def store_alignment(bam_file, fastq_file, annotation, args, input_mtimes=None):
     index = os.path.abspath(args.index)
     ann_path = os.path.abspath(annotation) if annotation else ""
 
-    key = "%s_aligned_to_%s%s" % (fastq, index, "_" + ann_path if ann_path else "")
+    key = "%s_aligned_to_%s%s%s" % (fastq, index, "_" + ann_path if ann_path else "", alignment_options_suffix(args))
     bam_file = os.path.abspath(bam_file)
     if input_mtimes is None:
         input_mtimes = alignment_input_mtimes(fastq_file, annotation, args)
